@@ -49,6 +49,7 @@ def one(sd):
             TRANSFORMS[os.environ["EVAL_TRANSFORM"]](scratch)
         env = dict(os.environ, VERIF_REPO=scratch, VERIF_EVIDENCE_DIR=os.path.join(scratch, "_evidence"))
         hit = {}
+        broken = {}
         for p in (props or claimed):
             r = subprocess.run(["/venv/bin/python", "-m", "sa.check", p, "--tier", "quick"], cwd=verif, env=env, capture_output=True, text=True)
             v = [l for l in r.stdout.splitlines() if l.startswith("VIOLATION")]
@@ -56,11 +57,14 @@ def one(sd):
             if r.returncode == 1 and v:
                 hit[p] = detail
             elif r.returncode == 2:
-                hit[p] = ["ANALYSIS-ERROR " + " ".join(l for l in r.stdout.splitlines() if "ANALYSIS-ERROR" in l)[:300]]
+                # "analysis broken" is not a detection: reported, never counted
+                broken[p] = " ".join(l for l in r.stdout.splitlines() if "ANALYSIS-ERROR" in l)[:300]
         import re as _re
         rules_hit = sorted({m for d in hit.values() for l in d for m in _re.findall(r"\[(R\d+\w?)\]", l)})
         status = "DETECTED" if target in hit else ("detected-by-other" if hit else "MISSED")
-        lines.append(f"{rel}: target={target} {status} {sorted(hit)}")
+        lines.append(f"{rel}: target={target} {status} {sorted(hit)}" + (f" ANALYSIS-ERROR in {sorted(broken)}" if broken else ""))
+        for p, d in broken.items():
+            lines.append(f"      {p}: {d[:230]}")
         shown = set()
         for p, d in hit.items():
             for l in d[:3]:
